@@ -189,6 +189,16 @@ def run (aeq : A → A → Bool) (st : GState A) (sched : List (Tid × GAct A)) 
 
 end GState
 
+/-- The seeded class "ONE recursion stack for all threads" (a closure-level list, a class-level attribute of a
+`threading.local` subclass, a thread id read once at import): every thread touches the list stored under the same key.
+Outcomes are still attributed to the acting thread. -/
+def GState.stepShared {A : Type} (aeq : A → A → Bool) (st : GState A) (c : Tid × GAct A) : GState A :=
+  let r := stepT aeq (st.stacks.get 0 []) c.2
+  { stacks := st.stacks.set 0 r.1, outs := (c.1, r.2) :: st.outs }
+
+def GState.runShared {A : Type} (aeq : A → A → Bool) (st : GState A) (sched : List (Tid × GAct A)) : GState A :=
+  sched.foldl (GState.stepShared aeq) st
+
 /-- solo run of one thread's touches from a given list: final list and outcomes (oldest first) -/
 def runT {A : Type} (aeq : A → A → Bool) : List A → List (GAct A) → List A × List GOut
   | stk, [] => (stk, [])
